@@ -44,6 +44,10 @@ def run (t : List String) : String :=
       let s := Selium.SharedConn.run Selium.Gen.Connection.reconnectOnlyIfClosed (Selium.SharedConn.cut acc.1) [0, 1, 0]
       (s, acc.2 ++ [if decide (Selium.SharedConn.working s 0) && decide (Selium.SharedConn.working s 1) then "ok" else "lost"])
     ",".intercalate ((List.range (nat! n)).foldl step ({ regs := [0, 0] }, [])).2
+  | ["midreg", _kind, m] =>
+    -- one outage: the first attempt fails recoverably (the connection is lost again before the registration is
+    -- answered), the second succeeds (`c12_recovers`)
+    outText (reconnect (nat! m) [Attempt.recoverable, Attempt.ok]).1
   | ["lonereplier", n, m] =>
     -- the router unbinds a dead replier whoever else is (or is not) on the topic (`c10_*`, rrPoll partF)
     ",".intercalate ((life replierBudgetPerOutage (nat! m) (nat! m) (List.replicate (nat! n) [Attempt.ok])).map outText)
